@@ -192,7 +192,7 @@ func (c *verifC25Case) row(q int, k verifC25Key) tsSelectRow {
 	r.max = v + 0.5
 	r.sumsquare = r.sum * r.sum
 	r.cardinality = v + 0.75
-	r.percentile = tdigest.New()
+	r.percentile = tdigest.NewWithCompression(2) // small: one centroid is all it holds
 	r.percentile.Add(v+0.125, 1)
 	return r
 }
@@ -634,11 +634,144 @@ func TestVerifC25Random(t *testing.T) {
 		if i < 3 {
 			res.Sample(map[string]any{"case": c, "got": g.out})
 		}
+		if i%4 == 0 { // page through the whole window with the markers of the real rows
+			w := &verifC25Walk{St: c.St, To: c.To, Desc: c.Desc, Limit: c.Limit, NBy: c.NBy, SKey: c.SKey}
+			pages := e.walk(t, w, c.Lods, 200)
+			whole := *c
+			whole.From, whole.Limit = verifC25Key{0}, 1<<30
+			want, _, _ := e.expect(&whole)
+			var got []verifC25Key
+			ok := true
+			for pi, p := range pages {
+				got = append(got, p.Keys...)
+				last := pi == len(pages)-1
+				if p.More == last || (!last && len(p.Keys) != c.Limit) {
+					ok = false
+				}
+			}
+			ok = ok && len(got) == len(want)
+			for j := 0; ok && j < len(want); j++ {
+				ok = verifC25Eq(got[j], want[j])
+			}
+			res.Count("walks", 1)
+			res.Count("walk_pages", len(pages))
+			if !ok {
+				res.Mismatch(verifkit.Mismatch{Beh: map[string]any{"walk": w, "lods": c.Lods}, Step: i + 1, Want: want, Got: pages, Sig: "paging",
+					Note: "paging with the markers of the real rows does not partition the window"})
+			}
+		}
 	}
 	out := filepath.Join(verifkit.TmpDir(t, "c25-"), "trace.ndjson")
 	if err := verifkit.WriteNDJSON(out, evs); err != nil {
 		t.Fatal(err)
 	}
 	res.Files = append(res.Files, out)
+	e.consts(res)
+}
+
+// ---- paging walks (specs/TablePaging.tla) ----
+
+type verifC25Page struct {
+	From verifC25Key   `json:"from"`
+	Keys []verifC25Key `json:"keys"`
+	More bool          `json:"more"`
+}
+
+type verifC25Walk struct {
+	St    [][]verifC25Key `json:"st"`
+	To    verifC25Key     `json:"to"`
+	Desc  bool            `json:"desc"`
+	Limit int             `json:"limit"`
+	NBy   int             `json:"nby"`
+	SKey  bool            `json:"skey"`
+	Pages []verifC25Page  `json:"pages"`
+}
+
+// the marker the real row carries (what handleGetTable encodes into FromRow/ToRow), as a key
+func (c *verifC25Case) keyOfMarker(m RowMarker) verifC25Key {
+	k := verifC25Key{m.Time}
+	for _, t := range m.Tags {
+		k = append(k, t.Value)
+	}
+	if c.SKey {
+		var rank int64
+		if m.SKey != "" {
+			fmt.Sscanf(m.SKey, "s%d", &rank)
+		}
+		k = append(k, rank)
+	}
+	return k
+}
+
+// walk pages through the table the way a client does: the next from-marker is the marker of the
+// last row received.  Returns the pages the real code produced.
+func (e *verifC25Env) walk(t *testing.T, w *verifC25Walk, lods [][]int64, maxPages int) []verifC25Page {
+	var pages []verifC25Page
+	from := verifC25Key{0}
+	for len(pages) < maxPages {
+		c := &verifC25Case{Lods: lods, St: w.St, From: from, To: w.To, Desc: w.Desc, Limit: w.Limit, NBy: w.NBy, SKey: w.SKey}
+		g, err := e.run(c)
+		if err != nil {
+			t.Fatalf("verifC25: walk: %v", err)
+		}
+		p := verifC25Page{From: from, More: g.more, Keys: []verifC25Key{}}
+		for _, r := range g.out.Rows {
+			p.Keys = append(p.Keys, r.K)
+		}
+		pages = append(pages, p)
+		if !g.more || len(g.rows) == 0 {
+			break
+		}
+		from = c.keyOfMarker(g.rows[len(g.rows)-1].rowRepr)
+	}
+	return pages
+}
+
+func verifC25PagesEq(a, b []verifC25Page) bool {
+	if len(a) != len(b) {
+		return false
+	}
+	for i := range a {
+		if a[i].More != b[i].More || len(a[i].Keys) != len(b[i].Keys) || !verifC25Eq(a[i].From, b[i].From) {
+			return false
+		}
+		for j := range a[i].Keys {
+			if !verifC25Eq(a[i].Keys[j], b[i].Keys[j]) {
+				return false
+			}
+		}
+	}
+	return true
+}
+
+// TestVerifC25Paging: the walks TLC enumerated from TablePaging.tla, replayed page by page on the
+// real getTableFromLODs, once per LOD split
+func TestVerifC25Paging(t *testing.T) {
+	verifkit.Gate(t)
+	res := verifkit.NewResult()
+	defer res.Write(t)
+	e := verifC25NewEnv()
+	splits := [][][]int64{{{1, 3}}, {{1, 2}, {2, 3}}}
+	n := 0
+	verifkit.ForEachLine(t, os.Getenv("VERIF_IN"), func(line []byte) {
+		var w verifC25Walk
+		if err := json.Unmarshal(line, &w); err != nil {
+			t.Fatalf("verifC25: bad walk: %v", err)
+		}
+		n++
+		for _, lods := range splits {
+			got := e.walk(t, &w, lods, len(w.Pages)+2)
+			res.Replayed++
+			res.Steps += len(got)
+			res.Seen(fmt.Sprintf("p%d/l%d", len(got), len(lods)))
+			if !verifC25PagesEq(got, w.Pages) {
+				res.Mismatch(verifkit.Mismatch{Beh: map[string]any{"walk": w, "lods": lods}, Step: n, Want: w.Pages, Got: got, Sig: "paging",
+					Note: "paging with the markers of the real rows does not produce the pages of the specification"})
+			}
+		}
+		if n == 1 {
+			res.Sample(map[string]any{"walk": w})
+		}
+	})
 	e.consts(res)
 }
